@@ -262,6 +262,13 @@ class BoundMethod:
         self.fn = fn
 
 
+class SuperProxy:
+    """super() of a method frame: (the instance, the class whose method is running)"""
+
+    def __init__(self, obj, after):
+        self.obj, self.after = obj, after
+
+
 class GenResult:
     """Result of calling a generator function that was executed eagerly: its yields."""
 
@@ -1303,6 +1310,13 @@ class Engine:
             return SPEC_FORMS[node.func.id](self, node, fr)
         if isinstance(node.func, ast.Name) and node.func.id == 'locals' and not node.args:
             return {k: v for k, v in fr.env.items() if '!' not in k}
+        if isinstance(node.func, ast.Name) and node.func.id == 'super' and not node.args and 'super' not in fr.env:
+            # zero-argument super() inside a method: attribute lookups continue in the MRO of type(self) behind the class
+            # that defines the running method
+            me, cls = fr.env.get('self'), getattr(fr, 'cls', None)
+            if isinstance(me, Obj) and me.info is not None and cls is not None:
+                return SuperProxy(me, cls)
+            raise Unsupported('super() outside a method of a repository class')
         fn = self.eval(node.func, fr)
         args = []
         for a in node.args:
@@ -1320,6 +1334,11 @@ class Engine:
 
     # ---- attribute / item access
     def getattr(self, base, attr, node=None):
+        if isinstance(base, SuperProxy):
+            v = self.loader.class_member(base.obj.info, attr, self, bind=base.obj, after=base.after)
+            if v is _MISSING or v is None:
+                raise PyRaise('AttributeError', "'super' object has no attribute '%s'" % attr, node=node)
+            return v
         if isinstance(base, Obj):
             if attr in base.attrs:
                 return base.attrs[attr]
